@@ -16,7 +16,7 @@ ASSUMPTIONS = ["scipy.linalg.expm closed form of the linear rate equations is th
                "reference log-priors from vlib/ref.py (C16)"]
 RUN_OPTS = {"batch_size": 5, "timeout_per_case": 120.0}
 MINIMA = {"*": {"cost_evaluations": 300, "contract_evaluations": 300, "ll_data_entries": 1000, "permutation_pairs": 100, "history_pairs": 100,
-                "out_of_support_thetas": 20, "emcee_evaluations": 40}}
+                "out_of_support_thetas": 20, "emcee_evaluations": 40, "differing_key_cases": 3}}
 
 ALLP = ["kp", "k1", "k2", "d", "da"]
 
@@ -45,8 +45,13 @@ def gen_case(rnd, thorough, i):
     condkeys = [k for k in condkeys if k not in est]
     conds = []
     for n in range(N):
-        if thorough and i % 4 == 0 and condkeys and N > 1:
-            keys = [k for k in condkeys if rnd.random() < 0.6] or condkeys[:1]     # differing key sets
+        if i % 3 == 0 and condkeys and N > 1:
+            # differing key sets, including a "control" trajectory with no condition at all; in half of these cases the
+            # last trajectory carries every key (a value left behind by it would be seen by the next evaluation)
+            if n == N - 1 and i % 2 == 0:
+                keys = list(condkeys)
+            else:
+                keys = [k for k in condkeys if rnd.random() < 0.5]
         else:
             keys = condkeys
         conds.append({k: float("%.3g" % (true[k] * rnd.uniform(0.3, 3))) for k in keys})
@@ -205,6 +210,8 @@ def run_case(case):
                     bad("data-misaligned", "LL_data[%d,:,%d] is not the column %r of trajectory %d (first rows %r vs %r)" % (n, mi, m, n, LL[n, :3, mi].tolist(), col[:3].tolist()))
                     break
     mech = "condition-keys-differ" if case["differing_keys"] else "cost-value"
+    if case["differing_keys"]:
+        C["differing_key_cases"] += 1
     # drive the sequence
     got = []
     for th in case["thetas"]:
